@@ -45,7 +45,39 @@ pub fn states(tier: &str) -> Vec<State> {
     }
     // members inherited from / referring to other namespaces
     out.extend(c08::cross_namespace_states(tier));
+    out.extend(three_namespace_states());
     out
+}
+
+/// Three namespaces A -> B -> C: a member of the subject (in A) is an element of B (by ref, or
+/// inherited from a base of B) whose TYPE lives in C, and B contributes no text-valued member.
+pub fn three_namespace_states() -> Vec<State> {
+    use crate::schema::*;
+    use crate::seeds::*;
+    const NS_C: &str = "http://zv.example/gamma";
+    let mk = |variant: &str| {
+        let mut s = c02::seed();
+        let c = XsdFile { name: "c.xsd".into(), tns: NS_C.into(), prefixes: vec![("c".into(), NS_C.into())], default_ns: None, imports: vec![], comps: vec![complex("NoteC", vec![el("Text", TypeRef::b("string")), el_occ("Rank", TypeRef::b("int"), 0, Max::N(1))])] };
+        s.files[1].prefixes.push(("c".into(), NS_C.into()));
+        s.files[1].imports.push(Import { ns: NS_C.into(), loc: Some("c.xsd".into()) });
+        s.files[1].comps.push(typed_element("RemarkB", TypeRef::n(NS_C, "NoteC")));
+        s.files[1].comps.push(complex("BaseB", vec![el("RemarkInB", TypeRef::n(NS_C, "NoteC"))]));
+        s.files.push(c);
+        match variant {
+            "ref" => holder_mut(&mut s).seq = Some(Seq::of(vec![Particle::Ref(ElemRef { target: QName::new(NS_B, "RemarkB"), min: 0, max: Max::N(1) })])),
+            "inherited" => {
+                let h = holder_mut(&mut s);
+                h.base = Some(QName::new(NS_B, "BaseB"));
+                h.seq = Some(Seq::of(vec![el("OwnA", TypeRef::b("string"))]));
+            }
+            _ => {
+                s.files[0].prefixes.push(("c".into(), NS_C.into()));
+                holder_mut(&mut s).seq = Some(Seq::of(vec![el("Direct", TypeRef::n(NS_C, "NoteC"))]));
+            }
+        }
+        State { label: format!("three namespaces: member of B typed in C, {variant}"), depth: 2, set: s }
+    };
+    vec![mk("ref"), mk("inherited"), mk("direct")]
 }
 
 /// the component whose values are exercised in a state
@@ -166,7 +198,9 @@ pub fn prepare(property: &str, tier: &str, want_de: bool, agg: &mut Agg) -> Prep
     let mut problems = vec![];
     let cap = if tier == "quick" { 24 } else { 64 };
     for (i, (st, r)) in states.iter().zip(ran.iter()).enumerate() {
-        if judge_run(property, "values", st, r, "").is_some() {
+        if let Some(v) = judge_run(property, "values", st, r, "") {
+            // no output: no value of the generated types can be conformant / round-trip
+            agg.add(v);
             masked += 1;
             continue;
         }
@@ -181,6 +215,17 @@ pub fn prepare(property: &str, tier: &str, want_de: bool, agg: &mut Agg) -> Prep
         let only = |c: &ExpComp| c.name == name;
         let api = compare_api(ex, &model, &ApiCheck { property, scope: "values", depth: st.depth, member_namespaces: false }, Some(&only));
         if !api.is_empty() {
+            // The generated type does not mirror the schema (C02/C08 say how): no literal can be typed
+            // from the reference and schema-valid instances cannot be carried. Reported here too, under
+            // its own clause, with the API discrepancy as context.
+            let first = &api[0];
+            let mut v = Violation::new(property, "api.nonconformant", "values").ctx("api.clause", &first.clause).exp(format!("a struct that mirrors the schema ({})", first.expected)).act(&first.actual).depth(st.depth).case(case_json(st));
+            for (k, val) in &first.context {
+                if k.starts_with("member.") || k == "maxOccurs" || k == "minOccurs" || k == "seq.maxOccurs" || k == "seq.minOccurs" {
+                    v = v.ctx(k, val);
+                }
+            }
+            agg.add(v);
             masked += 1;
             continue;
         }
@@ -198,7 +243,6 @@ pub fn prepare(property: &str, tier: &str, want_de: bool, agg: &mut Agg) -> Prep
         cases.push(BatchCase { id: format!("s{i}"), emitted: r.outcome.text().unwrap().to_string(), driver: Some(driver_for(&subj, want_de)) });
         subjects.push(subj);
     }
-    let _ = agg;
     Prepared { states, transitions, subjects, masked, cases, problems }
 }
 
